@@ -24,6 +24,9 @@ import Rdm.Lemmas.MapOrderLoops
 import Rdm.Lemmas.MapOrderChoquet
 import Rdm.Lemmas.MapOrderParse
 import Rdm.Lemmas.MapOrderListener
+import Rdm.Props.C07
+import Rdm.Lemmas.E2EServiceBatch
+import Rdm.Lemmas.E2EExamples
 namespace Rdm.Props.C02
 open Rdm
 
@@ -405,5 +408,82 @@ theorem facts_fresh : (Facts.staleFacts.all fun n => !["choquetEps"].contains n)
   onAdded_map_order, valuesRange_map_order, choquetDecompose_map_order, fetch/raw/signed/has_perm (consumers that
   only look keys up).
 -/
+
+/-! ## END TO END: the whole response is a function of the request and of the seeds it names
+
+`Props.C07.decideWith_reads_only_request_seeds` / `decide_reads_only_request_seeds` already state C02a for whole
+responses: two seed tables that give the same stream for every seed the request names (`Request.seeds`:
+`biasApplyRandomSeed`, every bias's `randomSeed` / `newCriterionRandomSeed` / anchoring `randomSeed + i`, the
+method's `randomSeed`) give the same outcome — the same response or the same rejection.  They are not repeated
+here; below are the two corollaries in the words of the property: the response is computed from the request and
+the streams of the named seeds ALONE (the table restricted to them), and it does not depend on the requests
+handled before (the model's handler `Rdm.decide exp · seeds` has no state to carry from one request to the
+next; that the real registries are never written is `Props.C10`). -/
+
+section EndToEnd
+variable {α : Type} [Num α]
+
+/-- **the response is a function of the request and of the named seeds**: throw everything else of the seed
+    table away — keep, for each seed the request names, the stream the table gives it — and `MakeDecision`
+    returns the same outcome (response or rejection).  With `Request.seeds` spelled out by
+    `named_seeds_spelled_out`. -/
+theorem decide_is_a_function_of_request_and_named_seeds (exp : α → α) (req : Request α) (s : Seeds α) :
+    Rdm.decide exp req s = Rdm.decide exp req (e2esRestrict s req.seeds) :=
+  Rdm.Props.C07.decide_reads_only_request_seeds exp req s _
+    (fun k hk => (e2es_genOf_restrict s req.seeds k hk).symm)
+
+/-- … hence two tables with the same restriction give the same outcome: accepted with the identical response,
+    or rejected again -/
+theorem same_named_streams_same_verdict_and_response (exp : α → α) (req : Request α) (s₁ s₂ : Seeds α)
+    (h : ∀ k ∈ req.seeds, genOf s₁ k = genOf s₂ k) :
+    (∃ resp, Rdm.decide exp req s₁ = .ok resp ∧ Rdm.decide exp req s₂ = .ok resp) ∨
+    (∃ e, Rdm.decide exp req s₁ = .error e ∧ Rdm.decide exp req s₂ = .error e) := by
+  rw [Rdm.Props.C07.decide_reads_only_request_seeds exp req s₁ s₂ h]
+  cases Rdm.decide exp req s₂ with
+  | error e => exact Or.inr ⟨e, rfl, rfl⟩
+  | ok resp => exact Or.inl ⟨resp, rfl, rfl⟩
+
+/-- the seeds a request names -/
+theorem named_seeds_spelled_out (req : Request α) :
+    req.seeds = req.biasSeed :: (req.biases.flatMap fun b => b.props.seeds) ++
+      (match req.mp with
+       | some mp => mp.seed.toList
+       | none => []) := rfl
+
+/-- **after any other requests**: in the model of the service handling a batch one request after the other,
+    the answer to a request is the answer it gets alone, whatever was handled before and after it -/
+theorem response_does_not_depend_on_the_history (exp : α → α) (seeds : Seeds α)
+    (before after : List (Nat × Request α)) (t : Nat) (req : Request α) :
+    e2esHandleAll exp seeds (before ++ (t, req) :: after) =
+      e2esHandleAll exp seeds before ++ (t, Rdm.decide exp req seeds) :: e2esHandleAll exp seeds after ∧
+    e2esHandleAll exp seeds [(t, req)] = [(t, Rdm.decide exp req seeds)] := by
+  refine ⟨?_, rfl⟩
+  rw [e2es_handleAll_append]
+  rfl
+
+/-- **the same request again**: two submissions of the same request in one batch (anywhere) get the same answer -/
+theorem same_request_again_same_response (exp : α → α) (seeds : Seeds α) (batch : List (Nat × Request α))
+    (t₁ t₂ : Nat) (req : Request α) (r₁ r₂ : R (Response α))
+    (h₁ : (t₁, r₁) ∈ e2esHandleAll exp seeds batch) (h₂ : (t₂, r₂) ∈ e2esHandleAll exp seeds batch)
+    (hu₁ : ∀ q, (t₁, q) ∈ batch → q = req) (hu₂ : ∀ q, (t₂, q) ∈ batch → q = req) : r₁ = r₂ := by
+  obtain ⟨q₁, hq₁, rfl⟩ := (e2es_handleAll_mem _ _ _ _ _).mp h₁
+  obtain ⟨q₂, hq₂, rfl⟩ := (e2es_handleAll_mem _ _ _ _ _).mp h₂
+  rw [hu₁ q₁ hq₁, hu₂ q₂ hq₂]
+
+/-- the hypotheses are satisfiable: the example request names the seeds 5 (activation), 3 (fatigue), 7
+    (reversal); a table with other entries and other streams elsewhere gives the same answer -/
+example : e2eExWs.seeds = [5, 3, 7] := by decide +kernel
+example : ∃ resp, Rdm.decide id e2eExWs e2eExSeeds = .ok resp ∧
+    Rdm.decide id e2eExWs ((99, [1 / 3]) :: e2eExSeeds ++ [(5, []), (100, [1])]) = .ok resp := by
+  obtain ⟨resp, h⟩ := e2e_ok_of_isOk (x := Rdm.decide id e2eExWs e2eExSeeds) (by decide +kernel)
+  rcases same_named_streams_same_verdict_and_response id e2eExWs e2eExSeeds
+      ((99, [1 / 3]) :: e2eExSeeds ++ [(5, []), (100, [1])]) (by decide +kernel) with
+    ⟨r, h1, h2⟩ | ⟨e, h1, _⟩
+  · rw [h] at h1; cases h1; exact ⟨resp, h, h2⟩
+  · rw [h] at h1; cases h1
+example : Rdm.decide id e2eExWs e2eExSeeds = Rdm.decide id e2eExWs (e2esRestrict e2eExSeeds [5, 3, 7]) :=
+  decide_is_a_function_of_request_and_named_seeds id e2eExWs e2eExSeeds
+
+end EndToEnd
 
 end Rdm.Props.C02
